@@ -49,6 +49,8 @@ func (o mpOp) String() string {
 		return fmt.Sprintf("put %s %q", o.k, o.body)
 	case "part-badid", "abort-badid":
 		return fmt.Sprintf("%s %s ?%s", o.kind, o.k, o.desc)
+	case "part-refused":
+		return fmt.Sprintf("part 1 of upload #%d, refused: %s", o.u, o.desc)
 	case "initiate-nokey":
 		return "initiate without a key"
 	case "delete-object":
@@ -311,6 +313,11 @@ func (s *mpSys) Ops() []engine.Op {
 	for _, k := range s.u.keys {
 		ops = append(ops, mpOp{kind: "put", k: k, body: "P"})
 	}
+	// a part the server refuses (its Content-MD5 is another body's; its aws-chunked stream is
+	// one byte longer than declared) is no part of the upload, new or in place of an older one
+	if len(s.m.Uploads) > 0 {
+		ops = append(ops, mpOp{kind: "part-refused", u: 0, desc: "wrong-md5"}, mpOp{kind: "part-refused", u: 0, desc: "chunked-longer-than-declared"})
+	}
 	// the bucket is deleted and created again: its pending uploads went with it
 	if !s.w.Cfg.Kind.IsSingle() && len(s.m.Objects) == 0 && len(s.m.Uploads) > 0 && !s.recreated {
 		ops = append(ops, mpOp{kind: "recreate-bucket"})
@@ -539,6 +546,21 @@ func (s *mpSys) apply(op engine.Op) (string, *engine.Violation) {
 			return bad("status", "-", r, expSig(e), "")
 		}
 		return respSig(r), nil
+	case "part-refused":
+		u := s.m.Uploads[o.u]
+		rq := drv.Req{Method: "PUT", Path: "/" + s.bucket + "/" + u.Key, Query: drv.Q("uploadId", u.ID, "partNumber", "1")}
+		if o.desc == "wrong-md5" {
+			rq.Body = []byte("refused-part")
+			rq.Header = drv.H("Content-MD5", "XrY7u+Ae7tCTyyK7j1rNww==") // (MD5 of "hello world")
+		} else {
+			rq.Body = drv.EncodeChunked([]byte("refused-part"), []int{12})
+			rq.Header = drv.H("X-Amz-Content-Sha256", "STREAMING-AWS4-HMAC-SHA256-PAYLOAD", "X-Amz-Decoded-Content-Length", "11")
+		}
+		r := s.w.Do(rq)
+		if r.Panic != "" || r.Status < 400 {
+			return bad("status", "part-refused:"+o.desc, r, "an error status", "(the part's body is not what its headers say)")
+		}
+		return respSig(r), nil // the upload's parts must be as they were: Check compares them with the unchanged model
 	case "part-badid", "abort-badid":
 		var r drv.Resp
 		if o.kind == "part-badid" {
